@@ -48,6 +48,9 @@ def harvest(binary):
 
 def attrs(s, kind):
     """(type-level metas, per-field metas f0/f1/f2, variant metas) of a trait set"""
+    if kind == 'un':
+        return {'Debug': (['Debug(unsafe)'], {}, {}), 'PartialEq': (['PartialEq(unsafe)', 'Eq'], {}, {}), 'Hash': (['Hash(unsafe)'], {}, {}), 'CopyClone': (['Copy', 'Clone'], {}, {}),
+                'Default': (['Default(new)'], {1: 'Default = 7'}, {})}[s]
     if s == 'Debug':
         return ['Debug'], {1: 'Debug(method(fmt_m))'}, {}
     if s == 'Clone':
@@ -120,6 +123,27 @@ def program(s, kind, nm, with_check=True, derive=True):
     if fm.get(0, '').startswith('Clone(method'):
         where = ' where %s: ::core::clone::Clone' % tp
     fn = [nm['f0'], nm['f1'], nm['f2']]
+    if kind == 'un':
+        # a union over the same three field types (the reference is the widest field: values are built through it, so every byte is initialised)
+        where = ' where %s: ::core::marker::Copy' % tp
+        src = head + 'pub union %s%s%s {\n%s}\n' % (ty, gdecl, where, ''.join('    %spub %s: %s,\n' % (fa(k), fn[k], fts[k]) for k in range(3)))
+        if not derive:
+            src += 'pub trait VerifMarker {}\nimpl%s VerifMarker for %s%s%s {}\n' % (gdecl, ty, gargs, where)
+            return src
+        if not with_check:
+            return src
+        body = '    let a: %s = %s { %s: %s };\n    let b: %s = %s { %s: %s };\n' % (inst, ty, fn[2], vals_a[2], inst, ty, fn[2], vals_b[2])
+        if s == 'Debug':
+            body += '    let t = format!("{:?}", a);\n    r.ck(!t.is_empty(), 0, &|| "empty Debug output".to_string());\n    let _ = &b;\n'
+        elif s == 'PartialEq':
+            body += '    r.ck(a == a && a != b, 0, &|| "== does not compare the bytes".to_string());\n'
+        elif s == 'Hash':
+            body += '    r.ck(trace_of(&a).unwrap() == trace_of(&a).unwrap() && trace_of(&a).unwrap() != trace_of(&b).unwrap(), 0, &|| "hash does not depend on the bytes".to_string());\n'
+        elif s == 'CopyClone':
+            body += '    let c = a.clone();\n    r.ck(unsafe { c.%s == a.%s && c.%s != b.%s }, 0, &|| "clone does not reproduce the union".to_string());\n' % (fn[2], fn[2], fn[2], fn[2])
+        elif s == 'Default':
+            body += '    let d: %s = Default::default();\n    let n: %s = <%s>::new();\n    r.ck(unsafe { d.%s == 7 && n.%s == 7 }, 0, &|| "default() does not use the field expression".to_string());\n    let _ = (&a, &b);\n' % (inst, inst, inst, fn[1], fn[1])
+        return src + 'pub fn check(r: &mut Rep) {\n%s}\n' % body
     if kind == 'sn':
         src = head + 'pub struct %s%s%s {\n%s}\n' % (ty, gdecl, where, ''.join('    %spub %s: %s,\n' % (fa(k), fn[k], fts[k]) for k in range(3)))
         mk = lambda vals: '%s { %s }' % (ty, ', '.join('%s: %s' % (fn[k], vals[k]) for k in range(3)))
@@ -169,7 +193,8 @@ def program(s, kind, nm, with_check=True, derive=True):
     return src
 
 
-ROLES = {'field': ['sn', 'en'], 'variant': ['en'], 'typaram': ['sn', 'st', 'en'], 'constparam': ['sn', 'st', 'en'], 'lifetime': ['sn', 'en'], 'typename': ['sn', 'st', 'en']}
+ROLES = {'field': ['sn', 'en', 'un'], 'variant': ['en'], 'typaram': ['sn', 'st', 'en', 'un'], 'constparam': ['sn', 'st', 'en', 'un'], 'lifetime': ['sn', 'en', 'un'], 'typename': ['sn', 'st', 'en', 'un']}
+UNION_SETS = ('Debug', 'PartialEq', 'Hash', 'CopyClone', 'Default')
 
 
 def hostile_names(role, ident):
@@ -257,9 +282,11 @@ def check(v, tier):
                 for s in SETS:
                     if tier == 'quick' and role in ('lifetime', 'typename', 'variant') and s in ('CopyClone', 'PartialOrd') :
                         continue
+                    if kind == 'un' and s not in UNION_SETS:
+                        continue
                     nm = hostile_names(role, name)
                     jobs.append(('C19|%s|%s|%s|%s' % (role, ident, kind, s), program(s, kind, nm), program(s, kind, nm, derive=False), role, ident))
-                if role == 'field' or (tier != 'quick' and role in ('typaram', 'constparam', 'variant')):
+                if (role == 'field' or (tier != 'quick' and role in ('typaram', 'constparam', 'variant'))) and kind != 'un':
                     for s in XSETS:
                         nm = hostile_names(role, name)
                         jobs.append(('C19|%s|%s|%s|%s' % (role, ident, kind, s), program(s, kind, nm), program(s, kind, nm, derive=False), role, ident))
